@@ -23,10 +23,16 @@
    on the write, every healthy recipient that passes the destination filter still gets the message exactly once
    and unmodified, everybody else gets nothing of it, and every subscriber of FAILED_MESSAGE is told about exactly
    the recipients that could not be served, each once, in recipient order.
-   Deeper nestings (a notice subscriber that itself fails) are decided against the implementation by the
-   correspondence and the spec oracle (check_C14). *)
+   UNCONDITIONALLY (no assumption about log levels, the other FAILED_MESSAGE subscribers or the nesting depth;
+   Proofs/NoticeServed.v): C14_notice_reaches_blocked / C14_notice_reaches_failing - when a recipient of a client
+   message is not writable, or its send fails, every subscriber of FAILED_MESSAGE that can accept data and whose
+   own sends do not fail gets EXACTLY ONE whole FAILED_MESSAGE frame naming that recipient's module id and embedding
+   the header (as stamped), and stays subscribed; C14_forward_notice_blocked - the same through the whole
+   forward_message for a recipient that is not writable when the message arrives; C14_no_notice_about_notices -
+   whatever fails while a log record or a failure notice is being delivered, no notice about IT is ever written
+   (any state, any budget, Ok or Crash). *)
 From Coq Require Import ZArith List Bool Lia.
-From Mgr Require Import Gen.MgrDefs Model.Manager Proofs.RegInv Proofs.RegTop Proofs.StepInv Proofs.Exact Proofs.ExactTop Proofs.DepartExact Proofs.FailExact Proofs.C05Inv Proofs.LoopExact.
+From Mgr Require Import Gen.MgrDefs Model.Manager Proofs.RegInv Proofs.RegTop Proofs.StepInv Proofs.Exact Proofs.ExactTop Proofs.DepartExact Proofs.FailExact Proofs.Hoare Proofs.C05Inv Proofs.LoopExact Proofs.OnlyRecipients Proofs.HealthyServed Proofs.NoticeServed.
 Import ListNotations.
 Open Scope Z_scope.
 
@@ -125,6 +131,55 @@ Theorem C14_kinds : forall s c dm,
   is_failing dm s c = m_reg (find_mod c (mods s)) && zmem c (wl s) && eligible dm s c && exhausted s c.
 Proof. intros s c dm. split; [apply is_ready_spec|split; reflexivity]. Qed.
 
+(* ---- unconditional ---- *)
+Theorem C14_notice_reaches_blocked : forall cfg fuel es u s (k : nat) p hh c g hh' s',
+  run cfg fuel es = Ok u s -> h_extra hh <> 0 -> zmem (h_type hh) no_notice_types = false ->
+  is_blocked s c = true ->
+  In g (snapshot s MT_FAILED_MESSAGE) -> zmem g (wl s) = true -> flookup g (faults s) = None ->
+  deliver_with cfg (forward cfg k) p hh c s = Ok hh' s' ->
+  hh' = hh /\
+  exists suf, out s' = out s ++ suf /\ notice_once (m_mod_id (find_mod c (mods s))) hh g suf /\ still_healthy g s s'.
+Proof. exact notice_reaches_healthy_blocked_reachable. Qed.
+
+Theorem C14_notice_reaches_failing : forall cfg fuel es u s (k : nat) p hh c g hh' s',
+  run cfg fuel es = Ok u s -> h_extra hh <> 0 -> zmem (h_type hh) no_notice_types = false ->
+  In c (snapshot s (h_type hh)) -> is_failing (h_dst_mod hh) s c = true ->
+  In g (snapshot s MT_FAILED_MESSAGE) -> zmem g (wl s) = true -> flookup g (faults s) = None ->
+  deliver_with cfg (forward cfg k) p hh c s = Ok hh' s' ->
+  hh' = set_count hh (cnt s c + 1) /\
+  exists suf, out s' = out s ++ suf /\
+    notice_once (m_mod_id (find_mod c (mods s))) (set_count hh (cnt s c + 1)) g suf /\ still_healthy g s s' /\
+    m_reg (find_mod c (mods s')) = false.
+Proof. exact notice_reaches_healthy_failing_reachable. Qed.
+
+Theorem C14_forward_notice_blocked : forall cfg fuel es u s (k : nat) hh p c g s',
+  run cfg fuel es = Ok u s -> h_extra hh <> 0 -> zmem (h_type hh) no_notice_types = false ->
+  bad_dest_mod (h_dst_mod hh) = false -> bad_dest_host (h_dst_host hh) = false ->
+  In c (snapshot s (h_type hh)) -> is_blocked s c = true ->
+  In g (snapshot s MT_FAILED_MESSAGE) -> zmem g (wl s) = true -> flookup g (faults s) = None ->
+  forward cfg k hh p s = Ok tt s' ->
+  exists a n e b,
+    out s' = out s ++ a ++ [(g, OHdr (set_count fail_hdr n)); (g, OPay (PFailed (m_mod_id (find_mod c (mods s))) e))] ++ b /\
+    same_msg hh e /\ still_healthy g s s'.
+Proof. exact forward_notice_blocked_reachable. Qed.
+
+Theorem C14_no_notice_about_notices : forall cfg fuel hh q s,
+  zmem (h_type hh) no_notice_types = true ->
+  exists suf, out (st (forward cfg fuel hh q s)) = out s ++ suf /\
+    forall x m e, In (x, OPay (PFailed m e)) suf -> PFailed m e = q \/ ~ same_msg hh e.
+Proof. exact no_notice_for_notices. Qed.
+
+Theorem C14_notices_only_about_reportable : forall cfg fuel hh q s,
+  exists suf, out (st (forward cfg fuel hh q s)) = out s ++ suf /\
+    forall x m e, In (x, OPay (PFailed m e)) suf -> PFailed m e = q \/ zmem (h_type e) no_notice_types = false.
+Proof. exact notice_payloads. Qed.
+
+Theorem C14_notice_once_meaning : forall m e g suf, notice_once m e g suf ->
+  (exists a n b, suf = a ++ [(g, OHdr (set_count fail_hdr n)); (g, OPay (PFailed m e))] ++ b /\
+                 filter (is_notice m e) (proj g a) = [] /\ filter (is_notice m e) (proj g b) = []) /\
+  length (filter (is_notice m e) (proj g suf)) = 1%nat.
+Proof. intros m e g suf H. exact H. Qed.
+
 (* the rest of the snapshot is visited whatever happened to one recipient *)
 Theorem C14_others_still_served : forall cfg rec p hh c r,
   deliver_loop cfg rec p hh (c :: r) = (hh' <- deliver_with cfg rec p hh c ;; deliver_loop cfg rec p hh' r).
@@ -152,3 +207,4 @@ Definition C14_failing_send_ex_hypotheses := failing_send_ex_hypotheses.
 Definition C14_failing_send_ex_outcome := failing_send_ex_outcome.
 Definition C14_mixed_delivery_ex_hypotheses := loop_ex_hypotheses.
 Definition C14_mixed_delivery_ex_outcome := loop_ex_outcome.
+Definition C14_notice_served_ex := notice_served_ex.
